@@ -141,6 +141,8 @@ package scanner
 //@   requires s != nil && s.stack != nil && s.prevContextsStack != nil
 //@   maypanic
 //@   modifies s.step, s.finds, s.finds[*], s.context.Type, s.context.ArrayHasItem, s.prevContextsStack.vals
+//@   ensures normal ==> result == scanContinue && len(s.finds) == old(len(s.finds)) + 1 && s.finds[old(len(s.finds))] == lexeme.ObjectEnd
+//@   ensures normal && s.annotation == annotationNone ==> s.step == stateEndValue
 //@ func stateBeginString(s, c)
 //@   props C13
 //@   requires s != nil && 1 <= s.index && s.index <= len(s.data)
@@ -220,3 +222,51 @@ package scanner
 //@   ensures normal && result == scanBeginObject ==> len(s.finds) == old(len(s.finds)) + 1 && s.finds[old(len(s.finds))] == lexeme.ObjectBegin && s.context.Type == contextTypeObject
 //@   ensures normal && result == scanBeginArray ==> len(s.finds) == old(len(s.finds)) + 1 && s.finds[old(len(s.finds))] == lexeme.ArrayBegin && s.context.Type == contextTypeArray
 //@   ensures normal && result == scanBeginTypesShortcut ==> len(s.finds) == old(len(s.finds)) + 2 && s.finds[old(len(s.finds))] == lexeme.MixedValueBegin && s.finds[old(len(s.finds)) + 1] == lexeme.TypesShortcutBegin && s.context.Type == contextTypeShortcut
+
+// between the parts of an object / array: line ends (reported) and blanks are
+// transparent, `/` opens an annotation, `#` a user comment (not between a key and its
+// colon), the separator moves on, the closing bracket ends the container
+//@ func stateAfterObjectKey(s, c)
+//@   props C13 C05
+//@   requires s != nil && s.returnToStep != nil && 1 <= s.index && s.index <= len(s.data)
+//@   maypanic
+//@   modifies s.step, s.finds, s.finds[*], s.returnToStep.vals, s.returnToStep.vals[*]
+//@   ensures panics <==> ((isNewLine(c) && s.annotation == annotationInline) || (c == '/' && (!s.allowAnnotation || !(s.annotation == annotationNone || s.annotation == annotationMultiLine))) || !(isBlank(c) || c == '/' || c == ':'))
+//@   ensures panics ==> typeis(pv, errors.DocumentError)
+//@   ensures normal ==> result == scanContinue
+//@   ensures normal && isNewLine(c) ==> len(s.finds) == old(len(s.finds)) + 1 && s.finds[old(len(s.finds))] == lexeme.NewLine && s.step == old(s.step)
+//@   ensures normal && !isNewLine(c) ==> len(s.finds) == old(len(s.finds))
+//@   ensures normal && isBlank(c) && !isNewLine(c) ==> s.step == old(s.step)
+//@   ensures normal && c == ':' ==> s.step == stateFoundObjectValueBegin
+//@ func stateFoundArrayEnd(s)
+//@   props C06 C13
+//@   requires s != nil && s.stack != nil && s.prevContextsStack != nil
+//@   maypanic
+//@   modifies s.step, s.finds, s.finds[*], s.allowAnnotation, s.context.Type, s.context.ArrayHasItem, s.prevContextsStack.vals
+//@   ensures panics <==> old(len(s.prevContextsStack.vals)) == 0
+//@   ensures normal ==> result == scanContinue && len(s.finds) == old(len(s.finds)) + 1 && s.finds[old(len(s.finds))] == lexeme.ArrayEnd
+//@   ensures normal ==> s.step == (len(s.stack.vals) == 0 ? stateEndTop : stateEndValue)
+//@   ensures normal && s.annotation == annotationNone ==> s.allowAnnotation == !old(s.context.ArrayHasItem)
+//@   ensures normal && s.annotation != annotationNone ==> s.allowAnnotation == old(s.allowAnnotation)
+//@ func stateAfterObjectValue(s, c)
+//@   props C13 C05
+//@   requires s != nil && s.returnToStep != nil && s.stack != nil && s.prevContextsStack != nil && 1 <= s.index && s.index <= len(s.data)
+//@   maypanic
+//@   modifies s.step, s.finds, s.finds[*], s.returnToStep.vals, s.returnToStep.vals[*], s.context.Type, s.context.ArrayHasItem, s.prevContextsStack.vals
+//@   ensures !(isBlank(c) || c == '/' || ((s.annotation == annotationNone || s.annotation == annotationInline) && c == '#') || c == ',' || c == '}') ==> panics && typeis(pv, errors.DocumentError)
+//@   ensures normal && c != '}' ==> result == scanContinue
+//@   ensures normal && isNewLine(c) ==> len(s.finds) == old(len(s.finds)) + 1 && s.finds[old(len(s.finds))] == lexeme.NewLine && s.step == old(s.step)
+//@   ensures normal && isBlank(c) && !isNewLine(c) ==> len(s.finds) == old(len(s.finds)) && s.step == old(s.step)
+//@   ensures normal && c == ',' ==> s.step == stateFoundObjectKeyBegin && len(s.finds) == old(len(s.finds))
+//@   ensures normal && c == '}' ==> len(s.finds) == old(len(s.finds)) + 1 && s.finds[old(len(s.finds))] == lexeme.ObjectEnd
+//@ func stateAfterArrayItem(s, c)
+//@   props C13 C05
+//@   requires s != nil && s.returnToStep != nil && s.stack != nil && s.prevContextsStack != nil && 1 <= s.index && s.index <= len(s.data)
+//@   maypanic
+//@   modifies s.step, s.finds, s.finds[*], s.returnToStep.vals, s.returnToStep.vals[*], s.allowAnnotation, s.context.Type, s.context.ArrayHasItem, s.prevContextsStack.vals
+//@   ensures !(isBlank(c) || c == '/' || ((s.annotation == annotationNone || s.annotation == annotationInline) && c == '#') || c == ',' || c == ']') ==> panics && typeis(pv, errors.DocumentError)
+//@   ensures normal ==> result == scanContinue
+//@   ensures normal && isNewLine(c) ==> len(s.finds) == old(len(s.finds)) + 1 && s.finds[old(len(s.finds))] == lexeme.NewLine && s.step == old(s.step)
+//@   ensures normal && isBlank(c) && !isNewLine(c) ==> len(s.finds) == old(len(s.finds)) && s.step == old(s.step)
+//@   ensures normal && c == ',' ==> s.step == stateFoundArrayItemBegin && len(s.finds) == old(len(s.finds))
+//@   ensures normal && c == ']' ==> len(s.finds) == old(len(s.finds)) + 1 && s.finds[old(len(s.finds))] == lexeme.ArrayEnd
